@@ -310,7 +310,15 @@ def openPackageResource(package, path):
                                               path=pkg.__path__)
         url = "file:" + pathname2url(filename)
         url = ZConfig.url.urlnormalize(url)
-        return urllib.parse.urlopen(url)
+        try:
+            with urllib.request.urlopen(url) as f:
+                return StringIO(f.read().decode('utf-8'))
+        except (OSError, ValueError) as e:
+            raise ZConfig.SchemaResourceError(
+                "error opening schema component: " + repr(e),
+                filename=path,
+                package=package,
+                path=pkg.__path__)
     else:
         v, tb = (None, None)
         for dirname in pkg.__path__:
